@@ -6,6 +6,7 @@ import os
 from harness.common import facts as F
 from . import factsx
 from .gen import gen_case, targeted_cases, ascii_lower, ascii_upper, COOKIE_SAFE
+from . import extra
 
 ID = 'C12'
 HERE = os.path.dirname(os.path.abspath(__file__))
@@ -18,6 +19,9 @@ RULE = ('option combinations (require_csrf True/False/None/other; set_default_cs
         'SERVER_NAME, Origin/Referer variants incl. null, lists, upper case, default ports, userinfo, brackets; token in '
         'header/body/query; equal, prefix, case-changed, empty, non-ASCII tokens); non-trivial = in at least one request of '
         'the sequence the wrapper reached the origin/token checks (checking in force, unsafe method, callback true); '
+        'plus two further case kinds: url (urlparse_m vs urllib.parse.urlparse; non-trivial = ValueError or non-empty netloc; '
+        'thorough: every string of length <= 4 over a 12-character alphabet, exhaustive) and seq (2-8 requests by 1-3 clients '
+        'through the router, each client carrying the session / csrf cookies it was handed; non-trivial = a check was reached); '
         'distinct by full case')
 ASSUMPTIONS = [
     'header names and trusted-origin patterns contain only characters whose str.upper()/lower() is the ASCII mapping',
@@ -45,7 +49,10 @@ LEVEL_TEXT = ('Machine-checked theorems for all configurations, requests and his
               'declarative token and origin conditions hold (csrf_gate), rejections are BadCSRFToken/BadCSRFOrigin '
               '(rejection_is_400), the body never runs on a failed check for any value of the repair parameters, '
               'is_same_domain has the exact documented characterisation, the query string and earlier requests do not '
-              'influence the verdict (history_independent), with refutations for the unrepaired parameter values.')
+              'influence the verdict (history_independent; view_history_independent over interleaved clients with minting storage), '
+              'the token lifecycle (minted exactly when none is held; an empty token is rejected when none is stored), the urlsplit '
+              'fragment (scheme/authority extraction for scheme://authority[/...], exact ValueError characterisation), with '
+              'refutations for the unrepaired parameter values.')
 LEVEL_NOTE = ('Trusted: Coq kernel; hand-written model (validated by correspondence, shape-pinned); WebOb/urllib fragments '
               'and the ipaddress oracle; Python harness. ASCII-case assumption on header names and trusted patterns.')
 ALLOWED_AXIOMS = ()
@@ -62,6 +69,8 @@ def facts(src):
 def generate(rng, tier, n):
     for _ in range(n):
         yield gen_case(rng)
+    for c in extra.extra_cases(rng, tier, n):
+        yield c
 
 
 def targeted(broken, disagreements, rng):
@@ -80,8 +89,32 @@ def _scalars_or_surrogates(s):
     return isinstance(s, str)
 
 
+def _valid_req(cfg, r, seq=False):
+    return valid({'config': cfg, 'caller': None, 'raises': False,
+                  'reqs': [dict(r, headers=[[k, v.replace(extra.PLACEHOLDER, 'p')] for k, v in r['headers']])]})
+
+
 def valid(case):
     try:
+        if case.get('kind') == 'url':
+            return isinstance(case['u'], str) and all(ord(c) < 256 for c in case['u'])
+        if case.get('kind') == 'seq':
+            if not case['steps'] or not case['clients']:
+                return False
+            for st in case['clients']:
+                if not (st is None or isinstance(st, str) and st.isascii()):
+                    return False
+                if st and case['config']['storage'] == 'cookie' and any(c not in COOKIE_SAFE for c in st):
+                    return False
+            for s_ in case['steps']:
+                if not (isinstance(s_['client'], int) and 0 <= s_['client'] < len(case['clients'])):
+                    return False
+                if s_['req']['stored'] is not None or not _valid_req(case['config'], s_['req']):
+                    return False
+                for k, v in s_['req']['headers'] + s_['req']['body']:
+                    if not all(ord(c) < 128 or c == extra.PLACEHOLDER for c in v):
+                        return False
+            return True
         cfg = case['config']
         if cfg['explicit'] not in (True, False, None, 'other'):
             return False
@@ -155,6 +188,7 @@ _impl = {}
 FRESH = 'f7e5h0000token00000000000000fresh'
 UNGUESSABLE = '\U0010fffd<unguessable>'
 _apps = {}
+_cur = {'fresh': FRESH}
 
 
 class _Ser:
@@ -189,7 +223,8 @@ def setup(tier):
             raise RuntimeError('assumption broken: NFKC(%r) contains a URL delimiter' % chr(c))
     _impl.update(Configurator=Configurator, Request=Request, Response=Response, csrf=csrfmod,
                  SessionFactory=BaseCookieSessionFactory, BadCSRFOrigin=BadCSRFOrigin, BadCSRFToken=BadCSRFToken,
-                 urlsplit=urllib.parse.urlsplit)
+                 urlsplit=urllib.parse.urlsplit, urlparse=urllib.parse.urlparse)
+    extra.register_evidence_patch(ID)
 
 
 def _callback(kind, calls):
@@ -229,10 +264,10 @@ def _app(cfg):
         policy = I['csrf'].LegacySessionCSRFStoragePolicy()
     elif cfg['storage'] == 'session':
         policy = I['csrf'].SessionCSRFStoragePolicy()
-        policy._token_factory = lambda: FRESH
+        policy._token_factory = lambda: _cur['fresh']
     else:
         policy = I['csrf'].CookieCSRFStoragePolicy()
-        policy._token_factory = lambda: FRESH
+        policy._token_factory = lambda: _cur['fresh']
     config.set_csrf_storage_policy(policy)
     log = {'ran': 0, 'cb': []}
     d = cfg['defaults']
@@ -353,10 +388,102 @@ def _effective(cfg):
     return d.get('token', 'csrf_token'), d.get('header', 'X-CSRF-Token'), d.get('allow_no_origin', False)
 
 
+def _held(cfg, jar):
+    """the token the client's cookies hold (None = none)"""
+    if cfg['storage'] == 'cookie':
+        return jar.get('csrf_token')
+    if 'session' not in jar:
+        return None
+    try:
+        return _Ser().loads(jar['session'].encode('ascii'))[2].get('_csrft_')
+    except Exception:
+        return None
+
+
+def _canon_held(cfg, tok, known):
+    if tok is None:
+        return []
+    if tok.startswith('\U0010fffd') or (cfg['storage'] == 'legacy' and tok not in known):
+        return ['MINTED']
+    return [tok]
+
+
+def _run_seq(case):
+    import io
+    I = _impl
+    cfg = case['config']
+    app, registry, log, policy = _app(cfg)
+    jars = []
+    for st in case['clients']:
+        jar = {}
+        if st is not None:
+            if cfg['storage'] == 'cookie':
+                jar['csrf_token'] = st
+            else:
+                jar['session'] = _Ser().dumps([1.0, 1.0, {'_csrft_': st}]).decode('ascii')
+        jars.append(jar)
+    known = set(s for s in case['clients'] if s is not None)
+    out = []
+    for i, step in enumerate(case['steps']):
+        jar = jars[step['client']]
+        held = _held(cfg, jar)
+        r = dict(step['req'])
+        res = (lambda v: v.replace(extra.PLACEHOLDER, held or '') if v == extra.PLACEHOLDER else v)
+        r['headers'] = [[k, res(v)] for k, v in r['headers']]
+        r['body'] = [[k, res(v)] for k, v in r['body']]
+        env, body = _environ(cfg, r)
+        env.pop('HTTP_COOKIE', None)
+        if jar:
+            env['HTTP_COOKIE'] = '; '.join('%s=%s' % kv for kv in sorted(jar.items()))
+        env['wsgi.input'] = io.BytesIO(body)
+        env['wsgi.errors'] = io.StringIO()
+        status = [-1]
+        setc = []
+
+        def start_response(st, headers, exc_info=None):
+            status[0] = int(st.split(' ', 1)[0])
+            setc.extend(v for k, v in headers if k.lower() == 'set-cookie')
+
+        log['ran'] = 0
+        del log['cb'][:]
+        _cur['fresh'] = 'fresh-%d' % i
+        try:
+            it = app(env, start_response)
+            try:
+                for _ in it:
+                    pass
+            finally:
+                if hasattr(it, 'close'):
+                    it.close()
+            if log['ran']:
+                view = [0]
+            else:
+                exc = env.get('harness.exception')
+                view = _exc_obs(exc) if exc is not None else ['no-run', status[0]]
+            for sc in setc:
+                name, _, val = sc.split(';', 1)[0].partition('=')
+                jar[name.strip()] = val.strip().strip('"')
+        except Exception as e:
+            status[0] = -1
+            view = _exc_obs(e)
+        finally:
+            _cur['fresh'] = FRESH
+        out.append([view, status[0], _canon_held(cfg, _held(cfg, jar), known)])
+    return out
+
+
 def run_impl(case):
     if not _impl:
         setup('quick')
     I = _impl
+    if case.get('kind') == 'url':
+        try:
+            p = I['urlparse'](case['u'])
+            return [0, p.scheme, p.netloc]
+        except ValueError:
+            return [1]
+    if case.get('kind') == 'seq':
+        return _run_seq(case)
     cfg = case['config']
     app, registry, log, policy = _app(cfg)
     token, header, allow = _effective(cfg)
@@ -465,9 +592,24 @@ def _req_wire(cfg, r):
     return [envs, post, query, _opt(stored), fresh, cbv, _v6_table(origins)]
 
 
+def _cfg_wire(cfg):
+    return to_wire({'config': cfg, 'caller': None, 'reqs': []})[0]
+
+
 def to_wire(case):
     if not _impl:
         setup('quick')
+    if case.get('kind') == 'url':
+        return [1, case['u'], _v6_table([case['u']])]
+    if case.get('kind') == 'seq':
+        cfg = case['config']
+        steps = []
+        for i, st in enumerate(case['steps']):
+            w = _req_wire(cfg, st['req'])
+            w[3] = []
+            w[4] = (UNGUESSABLE + str(i)) if cfg['storage'] == 'legacy' else 'fresh-%d' % i
+            steps.append([st['client'], w])
+        return [2, _cfg_wire(cfg), [[k, _opt(s)] for k, s in enumerate(case['clients'])], steps]
     cfg = case['config']
     d = cfg['defaults']
     if d is None:
@@ -487,6 +629,20 @@ def to_wire(case):
 
 
 def from_wire(case, raw):
+    if case.get('kind') == 'url':
+        if raw == [['bad']] or not raw or raw[0] not in (0, 1):
+            return {'model': ['MODEL-BAD', raw], 'spec': None}
+        return {'model': raw, 'spec': None}
+    if case.get('kind') == 'seq':
+        if raw == [['bad']] or not isinstance(raw, list) or len(raw) != 2:
+            return {'model': ['MODEL-BAD', raw], 'spec': None}
+        eo = case['config']['exception_only']
+        known = set(s for s in case['clients'] if s is not None)
+        out = []
+        for view, held in raw[0]:
+            status = 200 if view == [0] else (400 if view[0] in (1, 2) and not eo else -1)
+            out.append([view, status, _canon_held(case['config'], held[0] if held else None, known)])
+        return {'model': out, 'spec': raw[1]}
     if raw == [['bad']] or not isinstance(raw, list) or len(raw) != 3:
         return {'model': ['MODEL-BAD', raw], 'spec': None}
     steps, caller_after, specs = raw
@@ -531,9 +687,36 @@ def _step_verdict(case, step, sp):
     return True
 
 
+def _seq_holds(case, obs, spec):
+    res = []
+    eo = case['config']['exception_only']
+    for st, sp in zip(obs, spec):
+        runs, wf, pdef = sp
+        view, status, held = st
+        if not wf:
+            res.append(None)
+            continue
+        ran = (view == [0])
+        if ran != bool(runs):
+            return False
+        if not ran and pdef and not (isinstance(view, list) and view and view[0] in (1, 2)):
+            return False
+        if not ran and view and view[0] in (1, 2) and not eo and status != 400:
+            return False
+        res.append(True)
+    return None if all(r is None for r in res) else True
+
+
 def spec_holds(case, obs, spec):
     if spec is None:
         return None
+    if case.get('kind') == 'seq':
+        try:
+            if len(obs) != len(spec):
+                return False
+            return _seq_holds(case, obs, spec)
+        except Exception:
+            return False
     try:
         steps = obs[0]
         if len(steps) != len(spec):
@@ -557,6 +740,8 @@ FINDINGS = {
 
 def classify(case, obs, spec):
     """Which listed finding exactly explains the failure (all three are fixed-pending, none is open)."""
+    if case.get('kind') in ('url', 'seq'):
+        return None
     try:
         steps = obs[0]
         kinds_ = set()
@@ -580,6 +765,8 @@ def classify(case, obs, spec):
 
 
 def explain(item):
+    if item['case'].get('kind') in ('url', 'seq'):
+        return {'kind': item['case'].get('kind')}
     try:
         return {'finding': classify(item['case'], item['impl'], item['spec']),
                 'per_request': [{'observed': st, 'spec[runs,token_ok,origin_ok,wf,parse_defined]': sp}
@@ -589,6 +776,10 @@ def explain(item):
 
 
 def nontrivial(case, obs):
+    if case.get('kind') == 'url':
+        return obs == [1] or (len(obs) == 3 and obs[2] != '')
+    if case.get('kind') == 'seq':
+        return any(_reached(case, st['req']) for st in case['steps'])
     try:
         return any(_reached(case, r) for r in case['reqs'])
     except Exception:
@@ -610,6 +801,26 @@ def _reached(case, r):
 
 
 def kinds(case, obs):
+    if case.get('kind') == 'url':
+        ks = ['urlparse-sweep' if case.get('sweep') else 'urlparse-random']
+        ks.append('url-valueerror' if obs == [1] else 'url-netloc' if len(obs) == 3 and obs[2] else 'url-no-netloc')
+        return ks
+    if case.get('kind') == 'seq':
+        ks = ['seq', 'seq-storage-' + case['config']['storage'], 'seq-clients-%d' % len(case['clients'])]
+        try:
+            prev = {}
+            for st, o in zip(case['steps'], obs):
+                ks.append('seq-ran' if o[0] == [0] and _reached(case, st['req']) else 'seq-ran-unchecked' if o[0] == [0]
+                          else 'seq-bad-token' if o[0][0] == 2 else 'seq-bad-origin' if o[0][0] == 1 else 'seq-raised')
+                before = prev.get(st['client'], 'init')
+                if before != 'init' and before != o[2]:
+                    ks.append('seq-state-changed')
+                elif before == 'init' and o[2] and o[2] != ([case['clients'][st['client']]] if case['clients'][st['client']] is not None else []):
+                    ks.append('seq-minted')
+                prev[st['client']] = o[2]
+        except Exception:
+            ks.append('unreadable-observation')
+        return ks
     ks = ['storage-' + case['config']['storage'], 'history-%d' % len(case['reqs']),
           'caller-list' if case['caller'] is not None else 'settings-list']
     try:
